@@ -12,6 +12,7 @@ import Mathlib.Tactic.Ring
 import Mathlib.Algebra.Order.Ring.Rat
 import Mathlib.Algebra.BigOperators.Group.Finset.Basic
 import Mathlib.Algebra.BigOperators.Ring.Finset
+import Mathlib.Algebra.BigOperators.Field
 import Mathlib.Algebra.Order.BigOperators.Group.Finset
 
 namespace MsmVerif.Linalg
@@ -926,5 +927,577 @@ theorem gjStep_spec {n N : Nat} {aug new : Mat} {c : Nat} (h : RWF n N aug) (hc 
       rw [getD_map_range _ _ _ (by rw [h.1]; exact hr), if_neg hrc, getD_swapped aug hpn hcn,
         getD_zip_sub _ _ _ (k := k) (by rw [h.row_length hsw]; exact hk) (by rw [List.length_map]; exact hk'),
         getD_map _ _ _ hk', getD_of_lt (aug.getD p []) 0 (k := k) hk']
+
+/-- weighted row sum `Σ_{k<N} a_rk w_k` -/
+def rowPhi (N : Nat) (w : Nat → Rat) (a : Mat) (r : Nat) : Rat := rsum N (fun k => entry a r k * w k)
+
+theorem gjSwap_lt {n p c r : Nat} (hp : p < n) (hc : c < n) (hr : r < n) : gjSwap p c r < n := by
+  unfold gjSwap; split
+  · exact hp
+  · split
+    · exact hc
+    · exact hr
+
+/-- one elimination round preserves (in both directions) the set of weight vectors annihilating all rows -/
+theorem gjStep_phi_iff {n N : Nat} {aug new : Mat} {c : Nat} (h : RWF n N aug) (hc : c < n)
+    (hs : gjStep aug c = some new) (w : Nat → Rat) :
+    (∀ r, r < n → rowPhi N w aug r = 0) ↔ (∀ r, r < n → rowPhi N w new r = 0) := by
+  obtain ⟨p, hcp, hpn, hne, _, e1, e2⟩ := gjStep_spec h hc hs
+  have hc1 : rowPhi N w new c = rowPhi N w aug p / entry aug p c := by
+    unfold rowPhi
+    rw [rsum_congr (fun k hk => by rw [e1 k hk])]
+    simp only [rsum_eq_finset]
+    rw [Finset.sum_div]
+    exact Finset.sum_congr rfl (fun k _ => by ring)
+  have hr1 : ∀ r, r < n → r ≠ c → rowPhi N w new r =
+      rowPhi N w aug (gjSwap p c r) - entry aug (gjSwap p c r) c * rowPhi N w new c := by
+    intro r hr hrc
+    rw [hc1]
+    unfold rowPhi
+    rw [rsum_congr (fun k hk => by rw [e2 r k hr hrc hk])]
+    simp only [rsum_eq_finset]
+    rw [Finset.sum_div, Finset.mul_sum, ← Finset.sum_sub_distrib]
+    exact Finset.sum_congr rfl (fun k _ => by ring)
+  constructor
+  · intro hz r hr
+    have hcz : rowPhi N w new c = 0 := by rw [hc1, hz p hpn, zero_div]
+    by_cases hrc : r = c
+    · rw [hrc]; exact hcz
+    · rw [hr1 r hr hrc, hz _ (gjSwap_lt hpn hc hr), hcz]; ring
+  · intro hz
+    have hpz : rowPhi N w aug p = 0 := by
+      have := hz c hc
+      rw [hc1] at this
+      rcases div_eq_zero_iff.mp this with h0 | h0
+      · exact h0
+      · exact absurd h0 hne
+    intro r hr
+    by_cases hrp : r = p
+    · rw [hrp]; exact hpz
+    · -- `r = gjSwap p c r'` for `r' = if r = c then p else r`, and `r' ≠ c`
+      by_cases hrc : r = c
+      · have hpc : p ≠ c := fun hh => hrp (hrc.trans hh.symm)
+        have := hr1 p hpn hpc
+        rw [hz p hpn, hz c hc] at this
+        have e : gjSwap p c p = c := by unfold gjSwap; simp [hpc]
+        rw [e] at this
+        rw [hrc]; linarith
+      · have := hr1 r hr hrc
+        rw [hz r hr, hz c hc] at this
+        have e : gjSwap p c r = r := by unfold gjSwap; simp [hrc, hrp]
+        rw [e] at this
+        linarith
+
+/-- after round `c` the first `c + 1` columns are unit vectors -/
+theorem gjStep_unit_cols {n N : Nat} {aug new : Mat} {c : Nat} (h : RWF n N aug) (hc : c < n) (hcN : c < N)
+    (hs : gjStep aug c = some new)
+    (hI : ∀ r k, r < n → k < c → entry aug r k = if r = k then 1 else 0) :
+    ∀ r k, r < n → k < c + 1 → entry new r k = if r = k then 1 else 0 := by
+  obtain ⟨p, hcp, hpn, hne, _, e1, e2⟩ := gjStep_spec h hc hs
+  intro r k hr hk
+  by_cases hrc : r = c
+  · subst hrc
+    rw [e1 k (by omega)]
+    by_cases hkc : k = r
+    · subst hkc; simp [div_self hne]
+    · rw [hI p k hpn (by omega), if_neg (by omega), if_neg (Ne.symm hkc), zero_div]
+  · have hsw := gjSwap_lt hpn hc hr
+    rw [e2 r k hr hrc (by omega)]
+    by_cases hkc : k = c
+    · subst hkc
+      rw [div_self hne, if_neg hrc]; ring
+    · have hk' : k < c := by omega
+      rw [hI p k hpn hk', if_neg (by omega), zero_div, mul_zero, sub_zero, hI _ k hsw hk']
+      unfold gjSwap
+      rw [if_neg hrc]
+      split
+      · next hrp => rw [if_neg (by omega), if_neg (by omega)]
+      · rfl
+
+/-! ### the whole elimination and `inverse` -/
+
+/-- the first `c` elimination rounds -/
+def gjRun (aug : Mat) (c : Nat) : Option Mat :=
+  (List.range c).foldl (fun (acc : Option Mat) c => acc.bind (fun a => gjStep a c)) (some aug)
+
+theorem gjRun_succ (aug : Mat) (c : Nat) : gjRun aug (c + 1) = (gjRun aug c).bind (fun a => gjStep a c) := by
+  unfold gjRun
+  rw [List.range_succ, List.foldl_append]
+  rfl
+
+theorem gjRun_spec {n N : Nat} {aug : Mat} (h : RWF n N aug) (hN : n ≤ N) (c : Nat) (hc : c ≤ n) {a : Mat}
+    (hr : gjRun aug c = some a) :
+    RWF n N a ∧ (∀ r k, r < n → k < c → entry a r k = if r = k then 1 else 0) ∧
+      ∀ w : Nat → Rat, (∀ r, r < n → rowPhi N w aug r = 0) ↔ (∀ r, r < n → rowPhi N w a r = 0) := by
+  induction c generalizing a with
+  | zero =>
+    have : a = aug := by
+      unfold gjRun at hr; simp at hr; exact hr.symm
+    subst this
+    exact ⟨h, fun r k _ hk => absurd hk (Nat.not_lt_zero k), fun w => Iff.rfl⟩
+  | succ c ih =>
+    rw [gjRun_succ] at hr
+    cases hprev : gjRun aug c with
+    | none => rw [hprev] at hr; cases hr
+    | some a' =>
+      rw [hprev] at hr
+      have hs : gjStep a' c = some a := hr
+      obtain ⟨hw, hI, hphi⟩ := ih (by omega) hprev
+      obtain ⟨p, _, _, _, hw', _, _⟩ := gjStep_spec hw (by omega) hs
+      refine ⟨hw', gjStep_unit_cols hw (by omega) (by omega) hs hI, ?_⟩
+      intro w
+      rw [hphi w]
+      exact gjStep_phi_iff hw (by omega) hs w
+
+theorem getD_append_left' {α : Type} (l1 l2 : List α) (d : α) {k : Nat} (h : k < l1.length) :
+    (l1 ++ l2).getD k d = l1.getD k d := by
+  simp only [List.getD_eq_getElem?_getD]
+  rw [List.getElem?_append_left h]
+
+theorem getD_append_right' {α : Type} (l1 l2 : List α) (d : α) {k : Nat} (h : l1.length ≤ k) :
+    (l1 ++ l2).getD k d = l2.getD (k - l1.length) d := by
+  simp only [List.getD_eq_getElem?_getD]
+  rw [List.getElem?_append_right h]
+
+theorem getD_drop' {α : Type} (l : List α) (d : α) (n k : Nat) : (l.drop n).getD k d = l.getD (n + k) d := by
+  simp only [List.getD_eq_getElem?_getD]
+  rw [List.getElem?_drop]
+
+/-- the augmented start matrix `[m | 1]` -/
+def aug0 (m : Mat) : Mat := (List.zip m (identity m.length)).map (fun p => p.1 ++ p.2)
+
+theorem inverse_eq (m : Mat) : inverse m = (gjRun (aug0 m) m.length).map (fun a => a.map (fun row => row.drop m.length)) := rfl
+
+theorem getD_aug0 {n : Nat} {m : Mat} (h : WF n m) {r : Nat} (hr : r < n) :
+    (aug0 m).getD r [] = m.getD r [] ++ (identity n).getD r [] := by
+  have h1 : r < m.length := by rw [h.1]; exact hr
+  have h2 : r < (identity n).length := by rw [(WF_identity n).1]; exact hr
+  unfold aug0
+  rw [h.1, getD_map _ _ _ (by rw [List.length_zip, h.1, (WF_identity n).1, Nat.min_self]; exact hr),
+    getD_of_lt m _ h1, getD_of_lt _ _ h2]
+  simp
+
+theorem RWF_aug0 {n : Nat} {m : Mat} (h : WF n m) : RWF n (n + n) (aug0 m) := by
+  unfold aug0
+  refine ⟨by rw [List.length_map, List.length_zip, h.1, (WF_identity n).1, Nat.min_self], ?_⟩
+  intro row hrow
+  simp only [List.mem_map] at hrow
+  obtain ⟨⟨r1, r2⟩, hmem, rfl⟩ := hrow
+  rw [h.1] at hmem
+  rw [List.length_append, h.2 _ (List.of_mem_zip hmem).1, (WF_identity n).2 _ (List.of_mem_zip hmem).2]
+
+theorem entry_aug0_left {n : Nat} {m : Mat} (h : WF n m) {r k : Nat} (hr : r < n) (hk : k < n) :
+    entry (aug0 m) r k = entry m r k := by
+  unfold entry
+  rw [getD_aug0 h hr, getD_append_left' _ _ _ (by rw [h.row_length hr]; exact hk)]
+
+theorem entry_aug0_right {n : Nat} {m : Mat} (h : WF n m) {r k : Nat} (hr : r < n) (hk : k < n) :
+    entry (aug0 m) r (n + k) = if r = k then 1 else 0 := by
+  rw [← entry_identity hr hk]
+  unfold entry
+  rw [getD_aug0 h hr, getD_append_right' _ _ _ (by rw [h.row_length hr]; omega), h.row_length hr,
+    Nat.add_sub_cancel_left]
+
+theorem rsum_add (n m : Nat) (f : Nat → Rat) : rsum (n + m) f = rsum n f + rsum m (fun k => f (n + k)) := by
+  simp only [rsum_eq_finset]
+  exact Finset.sum_range_add f n m
+
+theorem rsum_ite_eq {n r : Nat} (hr : r < n) (f : Nat → Rat) :
+    rsum n (fun k => (if r = k then 1 else 0) * f k) = f r := by
+  rw [rsum_eq_finset, Finset.sum_eq_single r]
+  · simp
+  · intro k _ hk; simp [Ne.symm hk]
+  · intro h; exact absurd (Finset.mem_range.mpr hr) h
+
+theorem rowPhi_aug0 {n : Nat} {m : Mat} (h : WF n m) (w : Nat → Rat) {r : Nat} (hr : r < n) :
+    rowPhi (n + n) w (aug0 m) r = rsum n (fun k => entry m r k * w k) + w (n + r) := by
+  unfold rowPhi
+  rw [rsum_add]
+  congr 1
+  · exact rsum_congr (fun k hk => by rw [entry_aug0_left h hr hk])
+  · rw [rsum_congr (fun k hk => by rw [entry_aug0_right h hr hk])]
+    exact rsum_ite_eq hr (fun k => w (n + k))
+
+/-- correctness of the exact Gauss–Jordan inverse: a returned matrix is a well-formed two-sided inverse -/
+theorem inverse_spec {n : Nat} {m inv : Mat} (h : WF n m) (hi : inverse m = some inv) :
+    WF n inv ∧ mul m inv = identity n ∧ mul inv m = identity n := by
+  rw [inverse_eq, h.1] at hi
+  cases hrun : gjRun (aug0 m) n with
+  | none => rw [hrun] at hi; cases hi
+  | some a =>
+    rw [hrun] at hi
+    injection hi with hi
+    obtain ⟨hw, hI, hphi⟩ := gjRun_spec (RWF_aug0 h) (Nat.le_add_right n n) n (Nat.le_refl n) hrun
+    have hinv : WF n inv := by
+      subst hi
+      refine ⟨by rw [List.length_map, hw.1], ?_⟩
+      intro row hrow
+      simp only [List.mem_map] at hrow
+      obtain ⟨r, hr, rfl⟩ := hrow
+      rw [List.length_drop, hw.2 r hr, Nat.add_sub_cancel]
+    have hent : ∀ r k, r < n → k < n → entry a r (n + k) = entry inv r k := by
+      intro r k hr _
+      subst hi
+      unfold entry
+      rw [getD_map _ _ _ (by rw [hw.1]; exact hr), getD_of_lt a _ (by rw [hw.1]; exact hr), getD_drop']
+    have hphia : ∀ (w : Nat → Rat) r, r < n →
+        rowPhi (n + n) w a r = w r + rsum n (fun k => entry inv r k * w (n + k)) := by
+      intro w r hr
+      unfold rowPhi
+      rw [rsum_add]
+      congr 1
+      · rw [rsum_congr (fun k hk => by rw [hI r k hr hk])]
+        exact rsum_ite_eq hr w
+      · exact rsum_congr (fun k hk => by rw [hent r k hr hk])
+    refine ⟨hinv, ?_, ?_⟩
+    · -- right inverse: weights `(inv column j ; -e_j)`
+      apply Mat.ext (WF_mul h hinv) (WF_identity n)
+      intro i j hi' hj
+      rw [entry_mul h hinv hi' hj, entry_identity hi' hj]
+      let w : Nat → Rat := fun k => if k < n then entry inv k j else -(if k - n = j then 1 else 0)
+      have hz : ∀ r, r < n → rowPhi (n + n) w a r = 0 := by
+        intro r hr
+        rw [hphia w r hr]
+        have : rsum n (fun k => entry inv r k * w (n + k)) = -entry inv r j := by
+          rw [rsum_congr (g := fun k => (if j = k then 1 else 0) * (-entry inv r k))
+            (fun k hk => by
+              show entry inv r k * (if n + k < n then _ else _) = _
+              rw [if_neg (by omega), Nat.add_sub_cancel_left]
+              by_cases hkj : k = j
+              · subst hkj; simp
+              · simp [hkj, Ne.symm hkj])]
+          exact rsum_ite_eq hj (fun k => -entry inv r k)
+        rw [this]
+        show (if r < n then entry inv r j else _) + _ = 0
+        rw [if_pos hr]; ring
+      have := ((hphi w).mpr hz) i hi'
+      rw [rowPhi_aug0 h w hi'] at this
+      have e1 : rsum n (fun k => entry m i k * w k) = rsum n (fun k => entry m i k * entry inv k j) :=
+        rsum_congr (fun k hk => by show _ * (if k < n then _ else _) = _; rw [if_pos hk])
+      have e2 : w (n + i) = -(if i = j then 1 else 0) := by
+        show (if n + i < n then _ else _) = _
+        rw [if_neg (by omega), Nat.add_sub_cancel_left]
+      rw [e1, e2] at this
+      linarith
+    · -- left inverse: weights `(e_j ; -m column j)`
+      apply Mat.ext (WF_mul hinv h) (WF_identity n)
+      intro i j hi' hj
+      rw [entry_mul hinv h hi' hj, entry_identity hi' hj]
+      let w : Nat → Rat := fun k => if k < n then (if k = j then 1 else 0) else -entry m (k - n) j
+      have hz : ∀ r, r < n → rowPhi (n + n) w (aug0 m) r = 0 := by
+        intro r hr
+        rw [rowPhi_aug0 h w hr]
+        have : rsum n (fun k => entry m r k * w k) = entry m r j := by
+          rw [rsum_congr (g := fun k => (if j = k then 1 else 0) * entry m r k)
+            (fun k hk => by
+              show entry m r k * (if k < n then _ else _) = _
+              rw [if_pos hk]
+              by_cases hkj : k = j
+              · subst hkj; simp
+              · simp [hkj, Ne.symm hkj])]
+          exact rsum_ite_eq hj (fun k => entry m r k)
+        rw [this]
+        show _ + (if n + r < n then _ else _) = 0
+        rw [if_neg (by omega), Nat.add_sub_cancel_left]; ring
+      have := ((hphi w).mp hz) i hi'
+      rw [hphia w i hi'] at this
+      have e1 : rsum n (fun k => entry inv i k * w (n + k)) = -rsum n (fun k => entry inv i k * entry m k j) := by
+        simp only [rsum_eq_finset]
+        rw [← Finset.sum_neg_distrib]
+        apply Finset.sum_congr rfl
+        intro k _
+        show _ * (if n + k < n then _ else _) = _
+        rw [if_neg (by omega), Nat.add_sub_cancel_left]; ring
+      have e2 : w i = if i = j then 1 else 0 := by
+        show (if i < n then _ else _) = _
+        rw [if_pos hi']
+      rw [e1, e2] at this
+      linarith
+
+/-! ### `stationary` -/
+
+theorem stationary_eq (T : Mat) :
+    stationary T =
+      if T.length = 0 then none else
+      match inverse (statMatrix T) with
+      | none => none
+      | some inv =>
+        let x := inv.map (fun row => row.getD (T.length - 1) 0)
+        if vecMat x T == x then some x else none := rfl
+
+theorem stationary_some {T : Mat} {x : Vec} (hs : stationary T = some x) :
+    1 ≤ T.length ∧ vecMat x T = x ∧
+      ∃ inv, inverse (statMatrix T) = some inv ∧ x = inv.map (fun row => row.getD (T.length - 1) 0) := by
+  rw [stationary_eq] at hs
+  split at hs
+  · cases hs
+  · next hn =>
+    split at hs
+    · cases hs
+    · next inv hinv =>
+      simp only at hs
+      split at hs
+      · next hfix =>
+        injection hs with hs
+        subst hs
+        exact ⟨by omega, by simpa using hfix, inv, hinv, rfl⟩
+      · cases hs
+
+/-- a returned vector is a left fixed vector with sum one, and it is the last column of a two-sided inverse of `statMatrix T` -/
+theorem stationary_spec {n : Nat} {T : Mat} {x : Vec} (h : WF n T) (hs : stationary T = some x) :
+    vecMat x T = x ∧ x.sum = 1 ∧
+      ∃ inv, WF n inv ∧ mul inv (statMatrix T) = identity n := by
+  obtain ⟨hn, hfix, inv, hinv, hx⟩ := stationary_some hs
+  rw [h.1] at hn hx
+  have hA := WF_statMatrix h hn
+  obtain ⟨hw, hr, hl⟩ := inverse_spec hA hinv
+  refine ⟨hfix, ?_, inv, hw, hl⟩
+  have hxl : x.length = n := by rw [hx, List.length_map, hw.1]
+  have hxk : ∀ k, k < n → x.getD k 0 = entry inv k (n - 1) := by
+    intro k hk
+    rw [hx, getD_map _ _ _ (by rw [hw.1]; exact hk)]
+    unfold entry
+    rw [getD_of_lt inv _ (by rw [hw.1]; exact hk)]
+  have h1 : entry (mul (statMatrix T) inv) (n - 1) (n - 1) = 1 := by
+    rw [hr, entry_identity (by omega) (by omega), if_pos rfl]
+  rw [entry_mul hA hw (by omega) (by omega)] at h1
+  rw [sum_eq_rsum, hxl, ← h1]
+  apply rsum_congr
+  intro k hk
+  rw [entry_statMatrix_last h hk, one_mul, hxk k hk]
+
+/-! ### adding an isolated state (`T ⊕ (d)`) -/
+
+/-- block matrix `T ⊕ (d)`: one more state that is isolated from the others and has self-transition weight `d` -/
+def addState (T : Mat) (d : Rat) : Mat := T.map (fun r => r ++ [0]) ++ [List.replicate T.length 0 ++ [d]]
+
+theorem WF_addState {n : Nat} {T : Mat} (h : WF n T) (d : Rat) : WF (n + 1) (addState T d) := by
+  unfold addState
+  refine ⟨by simp [h.1], ?_⟩
+  intro r hr
+  rw [List.mem_append] at hr
+  rcases hr with hr | hr
+  · simp only [List.mem_map] at hr
+    obtain ⟨r', hr', rfl⟩ := hr
+    simp [h.2 r' hr']
+  · simp only [List.mem_singleton] at hr
+    subst hr; simp [h.1]
+
+theorem entry_addState_lt {n : Nat} {T : Mat} (h : WF n T) (d : Rat) {i j : Nat} (hi : i < n) (hj : j < n) :
+    entry (addState T d) i j = entry T i j := by
+  have hi' : i < T.length := by rw [h.1]; exact hi
+  unfold entry addState
+  rw [getD_append_left' _ _ _ (by rw [List.length_map]; exact hi'), getD_map _ _ _ hi', getD_of_lt T _ hi',
+    getD_append_left' _ _ _ (by rw [h.2 _ (List.getElem_mem hi')]; exact hj)]
+
+theorem NonNeg_addState {T : Mat} (p : NonNeg T) {d : Rat} (hd : 0 ≤ d) : NonNeg (addState T d) := by
+  unfold addState
+  intro r hr x hx
+  rw [List.mem_append] at hr
+  rcases hr with hr | hr
+  · simp only [List.mem_map] at hr
+    obtain ⟨r', hr', rfl⟩ := hr
+    rw [List.mem_append] at hx
+    rcases hx with hx | hx
+    · exact p r' hr' x hx
+    · simp only [List.mem_singleton] at hx; rw [hx]
+  · simp only [List.mem_singleton] at hr
+    subst hr
+    rw [List.mem_append] at hx
+    rcases hx with hx | hx
+    · rw [(List.mem_replicate.mp hx).2]
+    · simp only [List.mem_singleton] at hx; rw [hx]; exact hd
+
+theorem sum_replicate_zero (n : Nat) : (List.replicate n (0 : Rat)).sum = 0 := by
+  induction n with
+  | zero => rfl
+  | succ n ih => rw [List.replicate_succ, List.sum_cons, ih, add_zero]
+
+theorem rowSums_addState (T : Mat) (d : Rat) : rowSums (addState T d) = rowSums T ++ [d] := by
+  unfold rowSums addState
+  rw [List.map_append, List.map_map]
+  congr 1
+  · apply List.map_congr_left
+    intro r _
+    simp
+  · simp
+
+theorem colSums_eq {n : Nat} {T : Mat} (h : WF n T) :
+    colSums T = (List.range n).map (fun j => (T.map (fun row => row.getD j 0)).sum) := by
+  unfold colSums
+  rw [transpose_eq h, List.map_map]
+  rfl
+
+theorem colSums_addState {n : Nat} {T : Mat} (h : WF n T) (d : Rat) :
+    colSums (addState T d) = colSums T ++ [d] := by
+  rw [colSums_eq (WF_addState h d), colSums_eq h, List.range_succ, List.map_append]
+  congr 1
+  · apply List.map_congr_left
+    intro j hj
+    have hj' : j < n := List.mem_range.mp hj
+    unfold addState
+    rw [List.map_append, List.sum_append, List.map_map]
+    have e1 : List.map ((fun row => row.getD j 0) ∘ fun r => r ++ [0]) T = T.map (fun row => row.getD j 0) := by
+      apply List.map_congr_left
+      intro r hr
+      exact getD_append_left' _ _ _ (by rw [h.2 r hr]; exact hj')
+    rw [e1]
+    have e2 : (List.replicate T.length (0 : Rat) ++ [d]).getD j 0 = 0 := by
+      rw [getD_append_left' _ _ _ (by rw [List.length_replicate, h.1]; exact hj'),
+        getD_of_lt _ _ (by rw [List.length_replicate, h.1]; exact hj')]
+      simp
+    simp only [List.map_cons, List.map_nil, List.sum_cons, List.sum_nil]
+    rw [e2]; ring
+  · unfold addState
+    simp only [List.map_cons, List.map_nil]
+    rw [List.map_append, List.sum_append, List.map_map]
+    have e1 : List.map ((fun row => row.getD n 0) ∘ fun r => r ++ [0]) T = T.map (fun _ => (0 : Rat)) := by
+      apply List.map_congr_left
+      intro r hr
+      show (r ++ [0]).getD n 0 = 0
+      rw [getD_append_right' _ _ _ (by rw [h.2 r hr]), h.2 r hr, Nat.sub_self]
+      rfl
+    have e2 : (List.replicate T.length (0 : Rat) ++ [d]).getD n 0 = d := by
+      rw [getD_append_right' _ _ _ (by rw [List.length_replicate, h.1]), List.length_replicate, h.1, Nat.sub_self]
+      rfl
+    have e3 : (T.map (fun _ => (0 : Rat))).sum = 0 := by
+      rw [List.map_const']; exact sum_replicate_zero _
+    rw [e1, e3]
+    simp only [List.map_cons, List.map_nil, List.sum_cons, List.sum_nil]
+    rw [e2]; congr 1; ring
+
+theorem isSquare_of_WF {m : Mat} (h : WF m.length m) : isSquare m = true := by
+  unfold isSquare
+  rw [List.all_eq_true]
+  intro r hr
+  simp [h.2 r hr]
+
+theorem length_rowSums (m : Mat) : (rowSums m).length = m.length := by simp [rowSums]
+
+theorem length_colSums {n : Nat} {m : Mat} (h : WF n m) : (colSums m).length = n := by
+  rw [colSums_eq h]; simp
+
+theorem absQ_zero : absQ 0 = 0 := by unfold absQ; simp
+
+/-- the row condition of `is_transition_matrix` -/
+def tmatRowOK (p : Rat × Rat) : Bool :=
+  decide (absQ (p.1 - 1) ≤ atol) || !(p.1 != 0 || p.2 != 0)
+
+theorem isTmat_eq (m : Mat) :
+    isTmat m = (isQuadratic m && (List.zip (rowSums m) (colSums m)).all tmatRowOK) := rfl
+
+theorem isTmat_addState {T : Mat} (h : isTmat T = true) {d : Rat} (hd : d = 0 ∨ d = 1) :
+    isTmat (addState T d) = true := by
+  have hw := WF_of_isTmat h
+  have h2 := two_le_of_isTmat h
+  have hw' := WF_addState hw d
+  rw [isTmat_eq, Bool.and_eq_true] at h ⊢
+  constructor
+  · unfold isQuadratic
+    have hl : (addState T d).length = T.length + 1 := hw'.1
+    rw [isSquare_of_WF (by rw [hl]; exact hw'), hl]
+    simp only [Bool.true_and, Bool.and_eq_true, bne_iff_ne, ne_eq]
+    omega
+  · rw [rowSums_addState, colSums_addState hw,
+      List.zip_append (by rw [length_rowSums, length_colSums hw]), List.all_append, Bool.and_eq_true]
+    refine ⟨h.2, ?_⟩
+    simp only [List.zip_cons_cons, List.zip_nil_right, List.all_cons, List.all_nil, Bool.and_true]
+    unfold tmatRowOK
+    rcases hd with rfl | rfl
+    · simp
+    · simp [absQ_zero, le_of_lt atol_pos]
+
+theorem entry_of_ge_right {n : Nat} {m : Mat} (h : WF n m) (i : Nat) {j : Nat} (hj : n ≤ j) : entry m i j = 0 := by
+  by_cases hi : i < n
+  · unfold entry
+    rw [getD_of_ge _ _ (by rw [h.row_length hi]; exact hj)]
+  · exact entry_of_ge_left m j (by rw [h.1]; omega)
+
+theorem Walk.mono {b b' : List (List Bool)} (h : ∀ l j, bent b l j = true → bent b' l j = true)
+    {k i j : Nat} (hw : Walk b k i j) : Walk b' k i j := by
+  induction k generalizing j with
+  | zero => exact hw
+  | succ k ih =>
+    obtain ⟨l, h1, h2⟩ := hw
+    exact ⟨l, ih h1, h l j h2⟩
+
+theorem bent_support_addState {n : Nat} {T : Mat} (h : WF n T) (d : Rat) (l j : Nat)
+    (he : bent (support T) l j = true) : bent (support (addState T d)) l j = true := by
+  rw [bent_support] at he ⊢
+  have hne : entry T l j ≠ 0 := by simpa using he
+  have hl : l < n := by
+    by_contra hc
+    exact hne (entry_of_ge_left T j (by rw [h.1]; omega))
+  have hj : j < n := by
+    by_contra hc
+    exact hne (entry_of_ge_right h l (by omega))
+  rw [entry_addState_lt h d hl hj]
+  exact he
+
+/-- an accepted non-negative matrix has walks of every length `k ≥ K` between all pairs -/
+theorem walk_ge_of_isErgodic {m : Mat} (p : NonNeg m) (h : isErgodic m = true) (k : Nat)
+    (hk : wielandtExp m.length ≤ k) {i j : Nat} (hi : i < m.length) (hj : j < m.length) :
+    Walk (support m) k i j := by
+  induction k generalizing j with
+  | zero => have := wielandtExp_pos m.length; omega
+  | succ k ih =>
+    by_cases hk' : wielandtExp m.length = k + 1
+    · rw [← hk']; exact walk_of_isErgodic p h hi hj
+    · -- an in-neighbour of `j`
+      have hK := walk_of_isErgodic p h hj hj
+      have : wielandtExp m.length = (wielandtExp m.length - 1) + 1 := by have := wielandtExp_pos m.length; omega
+      rw [this] at hK
+      obtain ⟨l, _, he⟩ := hK.last_edge
+      have hl : l < m.length := by rw [← support_length]; exact bent_lt_length he
+      exact ⟨l, ih (by omega) hl, he⟩
+
+theorem wielandtExp_mono {a b : Nat} (h : a ≤ b) : wielandtExp a ≤ wielandtExp b := by
+  unfold wielandtExp
+  exact Nat.add_le_add_right (Nat.mul_le_mul (Nat.sub_le_sub_right h 1) (Nat.sub_le_sub_right h 1)) 1
+
+/-- `T ⊕ (1)` (isolated absorbing state) and `T ⊕ (0)` (never-visited state) are fuzzy-ergodic for ergodic `T` -/
+theorem isFuzzyErgodic_addState {T : Mat} (p : NonNeg T) (h : isErgodic T = true) {d : Rat} (hd : d = 0 ∨ d = 1) :
+    isFuzzyErgodic (addState T d) = true := by
+  have ht := isTmat_of_isErgodic h
+  have hw := WF_of_isTmat ht
+  have hw' := WF_addState hw d
+  have hl : (addState T d).length = T.length + 1 := hw'.1
+  have ht' := isTmat_addState ht hd
+  have hd0 : 0 ≤ d := by rcases hd with rfl | rfl <;> norm_num
+  have p' := NonNeg_addState p hd0
+  unfold isFuzzyErgodic
+  rw [Bool.and_eq_true]
+  refine ⟨ht', ?_⟩
+  simp only [List.all_eq_true, List.mem_range]
+  -- the new state is a trap state
+  have htrap : ((List.map (fun x => match x with | (r, c) => r + c)
+      ((rowSums (addState T d)).zip (colSums (addState T d)))).map
+      (fun s => decide (absQ (s - 2) ≤ atol) || decide (absQ s ≤ atol))).getD T.length false = true := by
+    rw [rowSums_addState, colSums_addState hw, List.zip_append (by rw [length_rowSums, length_colSums hw]),
+      List.map_append, List.map_append,
+      getD_append_right' _ _ _ (by simp [length_rowSums, length_colSums hw])]
+    have : T.length - (List.map (fun s => decide (absQ (s - 2) ≤ atol) || decide (absQ s ≤ atol))
+        (List.map (fun x => match x with | (r, c) => r + c) ((rowSums T).zip (colSums T)))).length = 0 := by
+      simp [length_rowSums, length_colSums hw]
+    rw [this]
+    rcases hd with rfl | rfl
+    · simp [absQ_zero, le_of_lt atol_pos]
+    · have : (1 : Rat) + 1 - 2 = 0 := by norm_num
+      simp [this, absQ_zero, le_of_lt atol_pos]
+  intro i hi j hj
+  rw [hl] at hi hj
+  by_cases hin : i = T.length
+  · subst hin; rw [htrap]; simp
+  · by_cases hjn : j = T.length
+    · subst hjn; rw [htrap]; simp
+    · have hi' : i < T.length := by omega
+      have hj' : j < T.length := by omega
+      have hwalk : Walk (support T) (wielandtExp (addState T d).length) i j := by
+        apply walk_ge_of_isErgodic p h _ _ hi' hj'
+        rw [hl]; exact wielandtExp_mono (Nat.le_succ _)
+      have hwalk' := hwalk.mono (bent_support_addState hw d)
+      have hpos := (pow_pos_iff_walk hw' p' _ (by omega) (by omega)).mpr hwalk'
+      rw [powFast_eq_pow hw']
+      simp [hpos]
 
 end MsmVerif.Linalg
